@@ -61,5 +61,10 @@ Fetch ==
 
 Spec == Init /\ [][Fetch]_vars
 
+(* The rsync transport: the objects are written by the rsync command, so the *)
+(* limit is enforced there; Routinator's part is to hand it over exactly     *)
+(* (collector/rsync.rs:528): one --max-size=L with a limit, none without.     *)
+RsyncArgs(lim) == IF lim = None THEN {} ELSE {<<"--max-size", lim>>}
+
 C38_LimitExact == done => (accepted <=> (limit = None \/ size <= limit))
 =============================================================================
